@@ -200,7 +200,9 @@ Section Controller.
     let period := epoch / c_period c in
     let fe0 := feosp altair_epoch period in
     let fe := if fe0 <? cur_epoch cur then cur_epoch cur else fe0 in
-    let fs0 := sub64 (first_slot_of_epoch p fe) 1 in
+    (* firstSlot := FirstSlotOfEpoch(firstEpoch); if firstSlot > 0 { firstSlot-- } *)
+    let f0 := first_slot_of_epoch p fe in
+    let fs0 := if 0 <? f0 then f0 - 1 else f0 in
     let fs := if fs0 <? cur then cur else fs0 in
     let le := sub64 (feosp altair_epoch (add64 period 1)) 1 in
     let ls := sub64 (first_slot_of_epoch p (add64 le 1)) 2 in
